@@ -64,10 +64,11 @@ def call(op: str, a: dict) -> dict:
                 vals = np.array(a["vals"], dtype=float)
                 ws = np.array(a["ws"], dtype=float)
                 unit = all(w == 1 for w in a["K"]["w"])
-                F = fg_est.estimate(K.copy(), subs, vals, ws, f, None, True)
+                crng = np.arange(a["crng"]) if a.get("crng", 0) > 0 else None
+                F = fg_est.estimate(K.copy(), subs, vals, ws, f, None, True, crng)
                 out = {"st": "ok", "F": bind.num(F), "G": []}
                 if unit:
-                    F3, G = fg_est.estimate(K.copy(), subs, vals, ws, f, g, True, None)
+                    F3, G = fg_est.estimate(K.copy(), subs, vals, ws, f, g, True, crng)
                     if bind.num(F3) != out["F"]:
                         return {"st": "separate-and-joint-estimation-differ"}
                     out["G"] = [bind.matrix(np.asarray(m)) for m in G]
@@ -181,8 +182,9 @@ def replay(b: dict) -> dict:
 
 
 def shapes(tier):
-    return [(2, 2), (2, 3), (2, 2, 2), (2, 1, 2, 2)] if tier == "quick" else \
-        [(2, 2), (2, 3), (3, 2), (2, 2, 2), (3, 2, 2), (2, 1, 2, 2), (2, 2, 2, 2), (2, 3, 2, 2)]
+    # (order 5 and lopsided order 4: the all-modes-at-once gradient contracts two or more intermediate modes in one step)
+    return [(2, 2), (2, 3), (2, 2, 2), (2, 1, 2, 2), (2, 2, 2, 2, 2)] if tier == "quick" else \
+        [(2, 2), (2, 3), (3, 2), (2, 2, 2), (3, 2, 2), (2, 1, 2, 2), (2, 2, 2, 2), (2, 3, 2, 2), (2, 2, 2, 2, 2), (4, 2, 2, 3), (2, 2, 3, 4)]
 
 
 def main(tier: str) -> int:
@@ -192,7 +194,7 @@ def main(tier: str) -> int:
         mod = "Losses_Trace" if data["stimulus"]["ev"][-1]["op"] == "handle" else "Gcp_Trace"
         return core.replay_file(rp, PROP, "c12", mod)
     out = Outcome(PROP, tier)
-    LAWS = "INVARIANT GradLaw\nINVARIANT ElementLaw\nINVARIANT EstLaw\n"
+    LAWS = "INVARIANT GradLaw\nINVARIANT ElementLaw\nINVARIANT EstLaw\nINVARIANT CrngLaw\n"
     jobs = [dict(module="Gcp_Gen", cfg_text="SPECIFICATION Spec\n" + LAWS, defs={"ShapeC": tla.tla(list(s))}, timeout=3000)
             for s in shapes(tier)]
     jobs.append(dict(module="Losses_Gen", cfg_text="SPECIFICATION Spec\nINVARIANT DerivativeLaw\nINVARIANT DiffSanity\n"))
